@@ -352,7 +352,9 @@ func (e *rtEnv) execRtOp(o []string) []string {
 	case "creq":
 		hdr := http.Header{}
 		if o[3] != "" {
-			hdr.Set("Origin", o[3])
+			for _, v := range strings.Split(o[3], "\x1f") { // several Origin lines
+				hdr.Add("Origin", v)
+			}
 		}
 		if o[4] != "" {
 			hdr.Set("Access-Control-Request-Method", o[4])
